@@ -201,9 +201,78 @@ fn c03_multibyte(ctx: &mut Ctx) {
     }
 }
 
+/// Counts as large as the language lets them be written, and printing: `of(.., n)` with n up to
+/// i64::MAX loads (n is any non-negative integer) and evaluates; an expression with long multi-byte
+/// needles prints, with and without a logging subscriber installed.
+fn c03_counts_and_printing(ctx: &mut Ctx) {
+    let docs: Vec<Yaml> = vec![
+        serde_yaml::from_str("{f: ab, g: 1}").unwrap(), serde_yaml::from_str("{f: [ab, x], g: x}").unwrap(), serde_yaml::from_str("{}").unwrap(), serde_yaml::from_str("{f: 5}").unwrap(),
+    ];
+    for n in ["9223372036854775807", "4294967296", "2147483648", "1000000000000", "65536", "3"] {
+        for (body, cond) in [
+            ("A:\n    - f: 'a*'\n    - g: 1\n", format!("of(A, {})", n)),
+            ("A:\n    f: 'a*'\n    g: 1\n", format!("of(A, {})", n)),
+            ("A:\n    - f: 'a*'\n    - g: 1\n", format!("not of(A, {})", n)),
+            (&format!("A:\n    of(f, {}): ['a*', '?b$', 3]\n", n), "A".to_string()),
+            (&format!("A:\n    of(f, {}): ['a*', '*b']\n", n), "A".to_string()),
+            (&format!("A:\n    of(f, {}): ['?a', '?b']\n", n), "not A".to_string()),
+        ] {
+            let text = format!("detection:\n  {}  condition: {}\ntrue_positives: []\ntrue_negatives: []\n", body, cond);
+            let value: Yaml = match serde_yaml::from_str(&text) { Ok(v) => v, Err(_) => continue };
+            let det: Vec<(String, Yaml)> = value.get("detection").and_then(|d| d.as_mapping()).map(|m| m.iter().map(|(k, v)| (k.as_str().unwrap_or("").to_string(), v.clone())).collect()).unwrap_or_default();
+            let c = CaseReq { optimised: false, det, tps: vec![], tns: vec![], docs: docs.clone(), masks: (0..16).collect() };
+            let (ex, _p) = run_rule_case(ctx, &c, false);
+            if ex.imp.contains("PANIC") || ex.imp.starts_with("HANG") {
+                ctx.violation("oracle", &format!("a rule with the count {} panics when evaluated: {}", n, trunc(&ex.imp, 200)), &ex, &rule_yaml(&c), true);
+            } else {
+                ctx.nontrivial.insert(hash_str(&ex.line));
+            }
+        }
+    }
+    // printing
+    let unit = ["é", "日", "€", "aé"];
+    for u in unit {
+        for len in [20usize, 47, 48, 49, 60, 100] {
+          for lead in ["", "x", "xy", "xyz"] {
+            // every byte offset falls inside a character for one of the leads
+            let needle: String = format!("{}{}", lead, std::iter::repeat(u).take(len).collect::<String>());
+            for pat in [format!("{}*", needle), format!("*{}", needle), format!("i*{}*", needle), format!("?{}", needle), needle.clone()] {
+                for list in [false, true] {
+                    let v = if list { format!("['{}', 'zz*', '?q']", pat) } else { format!("'{}'", pat) };
+                    let text = format!("detection:\n  A:\n    f: {}\n  condition: A\ntrue_positives: []\ntrue_negatives: []\n", v);
+                    let r = std::panic::catch_unwind(|| {
+                        let rule = tau_engine::Rule::from_str(&text).ok()?;
+                        let doc: serde_yaml::Mapping = serde_yaml::from_str("{f: xyz}").ok()?;
+                        let mut out = 0usize;
+                        for mask in [0u64, 15, 2] {
+                            let rl = if mask == 0 { rule.clone() } else { rule.clone().optimise(crate::implside::opts(mask)) };
+                            out += format!("{} {:?}", rl.detection.expression, rl.detection.identifiers.len()).len();
+                            for (_, e) in rl.detection.identifiers.iter() { out += format!("{}", e).len(); }
+                            let _ = rl.matches(&doc);
+                            let _ = tracing::subscriber::with_default(crate::suites2::AllOn, || (rl.matches(&doc), rl.validate().is_ok()));
+                        }
+                        Some(out)
+                    });
+                    ctx.evaluations += 1;
+                    match r {
+                        Ok(Some(_)) => { ctx.nontrivial.insert(hash_str(&text)); }
+                        Ok(None) => {}
+                        Err(_) => {
+                            let ex = Exchange { line: format!("print {}", hash_str(&text)), imp: "PANIC".into(), model: String::new(), agree: true, supported: false };
+                            ctx.violation("oracle", "printing / evaluating (with a logging subscriber) a rule with a long multi-byte needle panics", &ex, &text, true);
+                        }
+                    }
+                }
+            }
+          }
+        }
+    }
+}
+
 pub fn run_c03(ctx: &mut Ctx, _known: &Known) {
     run_implonly(ctx);
     c03_multibyte(ctx);
+    c03_counts_and_printing(ctx);
     // conditions that are a single bare value (no operator, identifier or quantifier): either a
     // load error or a rule that evaluates without panicking
     for cond in ["int(x)", "flt(x)", "str(x)", "not(x)", "1", "1.5", "(int(x))", "((1))", "string(x)", "x", "(x)", "all(x)", "of(x, 1)", "int(x) == 1", "not x"] {
@@ -577,6 +646,9 @@ fn c16_fixed_pairs(ctx: &mut Ctx) {
         ("net.dst: x\n    host: ws1", vec!["A", "not A"]),
         ("zz: q", vec!["A or int(net.port) > 5", "not (A or int(net.port) > 5)"]),
         ("o:\n      p:\n        q: x", vec!["A", "not A"]),
+        ("Data: '*mimikatz*'", vec!["A", "not A"]),
+        ("Data: ['*mimikatz*', '?^x']\n    host: ws1", vec!["A", "not A"]),
+        ("str(Data): '*mimikatz*'", vec!["A", "not A"]),
     ];
     let pairs = [
         ("{proc: {}}", "{proc: {pid: 1}}"),
@@ -594,6 +666,10 @@ fn c16_fixed_pairs(ctx: &mut Ctx) {
         ("{o: {p: {}}}", "{o: {p: {r: 1}}}"),
         ("{o: {}}", "{o: {r: 1}}"),
         ("{o: {p: {q: x}}}", "{o: {p: {q: x, r: 1}, s: 2}, o.p.q: y}"),
+        ("{Data: {'#text': mimikatz.exe}}", "{Data: {'#text': notepad.exe}}"),
+        ("{Data: {'#text': mimikatz.exe, '#attributes': {Name: x}}, host: ws1}", "{Data: {}, host: ws1}"),
+        ("{Data: {text: mimikatz, value: mimikatz, '0': mimikatz}}", "{Data: {other: 1}}"),
+        ("{Data: [{'#text': mimikatz}]}", "{Data: [{'#text': x}]}"),
     ];
     for (body, conds) in rules.iter() {
         for cond in conds {
